@@ -123,6 +123,68 @@ def _sources(body, cap_src, extra=None):
     return src, computed, place_src
 
 
+_KEYOP = re.compile(r"HashMap<.*>::(entry|get|get_mut|insert|contains_key|remove|get_or_insert_with)$|HashMap::<K, V, S, A?>::(entry|get|get_mut|insert|contains_key|remove)$|HashMap::<K, V, S>::(entry|get|get_mut|insert|contains_key|remove)$")
+
+
+def _general_cache(prog, b0, cap0, params):
+    """("ok", description, (constructor body, capture labels)) | ("bad", key, message) | ("unknown",)"""
+    work = [(b0, cap0, {2: "<cache>"})]
+    ops = []
+    ctor = None
+    seen = set()
+    while work:
+        bb, cap, extra = work.pop()
+        if bb.name in seen:
+            continue
+        seen.add(bb.name)
+        _src, _comp, place = _sources(bb, cap, extra)
+
+        def names(pl):
+            s_, c_ = place(pl)
+            out = set()
+            for x in s_:
+                out |= set(x.split("+"))
+            return out, c_
+        for _i, _j, st in bb.assigns():
+            if st["rv"]["k"] == "Aggregate" and st["rv"].get("agg") == "Closure":
+                nb = prog.bodies.get(st["rv"]["def"])
+                if nb is None:
+                    return ("unknown",)
+                capn = {}
+                for k_, op in enumerate(st["rv"]["ops"]):
+                    nm_, _c = names(op_place(op))
+                    if nm_:
+                        capn[k_] = "+".join(sorted(nm_))
+                work.append((nb, capn, None))
+        for i_, t_ in bb.calls():
+            n_ = callee_name(t_) or ""
+            if _KEYOP.search(n_) and len(t_["args"]) >= 2:
+                ks, kc = names(op_place(t_["args"][1]))
+                ops.append((ks - {"<cache>"}, kc, n_.split("::")[-1], t_.get("line")))
+            elif re.search(r"::try_new_\w+$|::new_formatter$", n_):
+                ctor = (bb, [cap.get(k_, "?") if cap else "?" for k_ in range(0, (max(cap) + 1) if cap else 0)])
+    if not ops or ctor is None:
+        return ("unknown",)
+    opts = set(params) - {"locale"}
+    for ks, kc, what, ln in ops:
+        if kc:
+            return ("bad", "computed-key", "the cache key of `%s` (line %s) is computed (%s) rather than being the locale/options themselves: distinct options can share a slot" % (what, ln, kc))
+        if not ks or not ks <= set(params):
+            return ("bad", "shape", "`%s` (line %s) on the cache takes a key that is not made of the getter's parameters (%s)" % (what, ln, sorted(ks)))
+    outer = [o for o in ops if o[0] == {"locale"}]
+    inner = [o for o in ops if o[0] != {"locale"}]
+    if outer:
+        bad_ = [o for o in inner if o[0] != opts]
+        if not inner or bad_:
+            o = (bad_ or [(set(), None, "?", None)])[0]
+            return ("bad", "unkeyed:" + ",".join(sorted(opts - o[0])), "parameter(s) %s are used to build the formatter but are not part of the cache key (`%s`, line %s, is keyed by %s)" % (sorted(opts - o[0]), o[2], o[3], sorted(o[0])))
+    else:
+        bad_ = [o for o in inner if o[0] != set(params)]
+        if bad_:
+            return ("bad", "unkeyed:" + ",".join(sorted(set(params) - bad_[0][0])), "`%s` (line %s) is keyed by %s, not by the locale and every option" % (bad_[0][2], bad_[0][3], sorted(bad_[0][0])))
+    return ("ok", "%d keyed map operation(s): %s" % (len(ops), ", ".join("%s[%s]" % (o[2], "+".join(sorted(o[0]))) for o in ops)), ctor)
+
+
 CTOR = {}   # id(prog) -> getter -> (MIR body of the constructing closure, [what each captured variable is: parameter name(s) / <cache>])
 
 
@@ -203,10 +265,21 @@ def r1_cache_key(ctx, prog):
             elif (used & set(params)) - key_all or set(params) - key_all:
                 r.viol("R1:%s#unkeyed:%s" % (g, ",".join(sorted(((used & set(params)) | set(params)) - key_all))), "parameter(s) %s are used to build the formatter but are not part of the cache key" % sorted(((used & set(params)) | set(params)) - key_all), file=b0.file, line=b0.line)
             else:
-                CTOR.setdefault(id(prog), {})[g] = (b0, ["+".join(sorted(x)) for x in keys])
+                CTOR.setdefault(id(prog), {})[g] = (b0, [cap0.get(k_, "?") for k_ in range((max(cap0) + 1) if cap0 else 0)])
                 r.inst(g, "key = (locale, %s); entry matched by hand (Occupied / Vacant), constructor inline" % ", ".join(sorted(keys[1])))
             continue
-        if len(entries) != 2 or len(oi) != 1:
+        if len(entries) != 2 or len(oi) != 1 or _closure_arg(b0, oi[0], 1) is None:
+            # any other way of writing the cache (lookup / early return / insert, a named constructor closure ..): every map operation that
+            # takes a key, in this closure and the closures it builds, is keyed by the locale alone (outer level) or by all the option
+            # parameters (inner level), uncomputed - so no parameter the formatter is built from is left out of the key
+            verdict = _general_cache(prog, b0, cap0, params)
+            if verdict[0] == "ok":
+                CTOR.setdefault(id(prog), {})[g] = verdict[2]
+                r.inst(g, "key = (locale, %s); cache written by hand: %s" % (", ".join(p_ for p_ in params if p_ != "locale"), verdict[1]))
+                continue
+            if verdict[0] == "bad":
+                r.viol("R1:%s#%s" % (g, verdict[1]), verdict[2], file=b0.file, line=b0.line)
+                continue
             r.viol("R1:%s#shape" % g, "expected entry(locale).or_default().entry(options).or_insert_with(..): %d entry call(s), %d or_insert_with" % (len(entries), len(oi)), file=b0.file, line=b0.line)
             continue
         if b0.dominates(entries[1], entries[0]):
@@ -966,12 +1039,34 @@ def _r3_runtime(r, ctx, prog):
             ps = mirsum.paths(prog, cb, depth=2)
             got_all = set()
             for _conds, trace, _ret in ps or []:
-                ents = [x for x in trace if x[0] == "call" and re.search(r"HashMap.*::entry$", x[1])]
+                ents = [x for x in trace if x[0] == "call" and (re.search(r"HashMap.*::entry$", x[1]) or _KEYOP.search(x[1])) and len(x[2]) >= 2]
                 cc = None
                 for x in trace:
                     cc = cc or find_ctor(x)
-                if cc is None or len(ents) != 2:
+                cc = cc or find_ctor(_ret)
+                if cc is None or len(ents) < 2:
                     continue
+
+                def named(x):
+                    # the captures of the closure (p1.K) by the name of what they capture
+                    if isinstance(x, tuple):
+                        if len(x) == 3 and x[0] == "field" and x[2] == ("p", 1) and str(x[1]).isdigit() and int(x[1]) < len(labels):
+                            return ("cap", labels[int(x[1])])
+                        return tuple(named(y) for y in x)
+                    return x
+                trace = [named(x) for x in trace]
+                _ret = named(_ret)
+                ents = [named(x) for x in ents]
+                cc = named(cc)
+
+                def caps_in(x, acc):
+                    if isinstance(x, tuple):
+                        if len(x) == 2 and x[0] == "cap" and isinstance(x[1], str):
+                            acc.add(x[1])
+                        else:
+                            for y in x:
+                                caps_in(y, acc)
+                    return acc
 
                 def subst(x, m):
                     if x in m:
@@ -979,7 +1074,12 @@ def _r3_runtime(r, ctx, prog):
                     if isinstance(x, tuple):
                         return tuple(subst(y, m) for y in x)
                     return x
-                m = {ents[0][2][1]: ("cap", labels[0]), ents[1][2][1]: ("cap", labels[1])}
+                # the key expressions of the map operations stand for the parameters they are made of
+                m = {}
+                for x in ents:
+                    cs_ = sorted(caps_in(x[2][1], set()))
+                    if cs_ and x[2][1] != ("cap", cs_[0]):
+                        m[x[2][1]] = ("cap", "+".join(cs_))
                 got_all.add(mirsum.fmt(subst(cc, m)))
             if len(got_all) == 1:
                 c = True
